@@ -825,7 +825,7 @@ func main() {
 				}
 				sp.WaitMs += k * 2 * sp.DeadlineMs
 			}
-			sp.SettleMs = passiveMs + 6000
+			sp.SettleMs = passiveMs + 4000
 			if in.Sweep != nil && in.Slow {
 				sp.WaitMs += passiveMs + 15000
 			}
